@@ -1078,3 +1078,54 @@ Proof.
 Qed.
 
 
+
+(* ------------------------------------------- mark to mark, reverse chaining *)
+
+Lemma markmark_effect : forall gd kp seq a b marks1 (marks2 : list (N * list anchor)) g0 cls mx my
+    g2 l2 d (anchors : list anchor) bx byy,
+  nth_error seq a = Some g0 -> assoc (gid g0) marks1 = Some (cls, (mx, my)) ->
+  next_kept kp (rev (firstn a seq)) 0 = Some (g2, l2, d) ->
+  mm_same (Some (g2, l2, d)) (find_base marks2 (rev (firstn a seq)) 1) = true ->
+  assoc (gid g2) marks2 = Some anchors ->
+  nth_error anchors cls = Some (Some (bx, byy)) ->
+  let g' := mkG (gid g0) (gtext g0)
+                (gx g2 + (bx - mx - sum_adv (slice seq (a - S d) a)))%Z
+                (gy g2 + (byy - my))%Z (gadv g0) in
+  simple_effect gd kp seq a b (SMarkMark marks1 marks2) =
+  Some (ESet [(a, g')] (S a), glyph_fits g' && Z.eqb (gx g2) 0 && Z.eqb (gy g2) 0).
+Proof.
+  intros. unfold simple_effect. rewrite H. cbn iota beta. rewrite H0. cbn iota beta zeta.
+  rewrite H1. rewrite H2. cbn [negb]. cbn iota beta. rewrite H3. cbn iota beta. rewrite H4. reflexivity.
+Qed.
+
+Lemma revchain_effect : forall gd kp seq a b m back look g0 h,
+  nth_error seq a = Some g0 -> assoc (gid g0) m = Some h ->
+  match_ctx kp (map PCov back) (rev (firstn a seq)) = true ->
+  match_ctx kp (map PCov look) (skipn (S a) seq) = true ->
+  simple_effect gd kp seq a b (SRevChain m back look) = Some (ESet [(a, set_gid h g0)] (S a), true).
+Proof.
+  intros. unfold simple_effect. rewrite H. cbn iota beta. rewrite H0. cbn iota beta.
+  rewrite H1, H2. reflexivity.
+Qed.
+
+Lemma revchain_no_context : forall gd kp seq a b m back look g0 h,
+  nth_error seq a = Some g0 -> assoc (gid g0) m = Some h ->
+  match_ctx kp (map PCov back) (rev (firstn a seq)) && match_ctx kp (map PCov look) (skipn (S a) seq) = false ->
+  simple_effect gd kp seq a b (SRevChain m back look) = None.
+Proof.
+  intros. unfold simple_effect. rewrite H. cbn iota beta. rewrite H0. cbn iota beta.
+  rewrite H1. reflexivity.
+Qed.
+
+Lemma apply_lookup_reverse : forall ll gd budget lk li seq ok,
+  nth_error ll li = Some lk -> is_reverse lk = true ->
+  apply_lookup ll gd budget (seq, ok) li =
+  (rscan ll gd budget lk (length seq) seq,
+   ok && seq_eqb (rscan ll gd budget lk (length seq) seq)
+                 (fst (scan ll gd budget lk (length seq) (length seq) seq true))).
+Proof. intros. unfold apply_lookup. rewrite H, H0. reflexivity. Qed.
+
+Lemma apply_lookup_forward : forall ll gd budget lk li seq ok,
+  nth_error ll li = Some lk -> is_reverse lk = false ->
+  apply_lookup ll gd budget (seq, ok) li = scan ll gd budget lk (length seq) (length seq) seq ok.
+Proof. intros. unfold apply_lookup. rewrite H, H0. reflexivity. Qed.
